@@ -18,7 +18,17 @@ def run_check(pid: str, tier: str, replay_key=None, src=None, write=True, quiet=
     mod = importlib.import_module(f"sa.rules.{pid.lower()}")
     src = src or Source()
     run = Run(pid, src, tier)
-    mod.check(run)
+    try:
+        mod.check(run)
+    except AnalysisError as e:
+        # a refusal further down does not retract what was already decided: findings on resolved constructs stand on their own
+        from .core import load_known
+        known = {(k["property"], k["key"]) for k in load_known().get("findings", [])}
+        if not any((pid, f.key) not in known for f in run.findings):
+            raise
+        run.notes["incomplete"] = str(e)
+        if not quiet:
+            print(f"ANALYSIS-INCOMPLETE property={pid} {e} (the findings below were decided before the refusal)")
     code = finish(run, mod.EXPLANATION, mod.ASSUMPTIONS, mod.TRUSTED, replay_key=replay_key, write=write, quiet=quiet)
     return code, run
 
